@@ -248,7 +248,7 @@ def check_case(ctx, c, local_tz=None):
     except Exception as e:
         r = e
     ctx.ran()
-    path = PathTap.accepted()
+    path = PathTap.accepted(WANT_PATH[c["kind"]])
     want_aware = c["aware"] is True or (c["aware"] is None and named_zone)
     dual = len({i for i, w in cands}) > 1 or len({w for i, w in cands}) > 1
     feats = {"kind": c["kind"], "aware": c["aware"], "dual": dual, "has_B": c["B"] is not None, "path": path,
